@@ -47,14 +47,6 @@ func (P) Facts() []core.Fact {
 	for k, v := range blockchain.VerifConstsC14() {
 		fs = append(fs, core.Fact{Name: k, Value: v})
 	}
-	fs = append(fs,
-		core.Fact{Name: "thresholdDefined", Value: int64(blockchain.ThresholdDefined)},
-		core.Fact{Name: "thresholdStarted", Value: int64(blockchain.ThresholdStarted)},
-		core.Fact{Name: "thresholdLockedIn", Value: int64(blockchain.ThresholdLockedIn)},
-		core.Fact{Name: "thresholdActive", Value: int64(blockchain.ThresholdActive)},
-		core.Fact{Name: "thresholdFailed", Value: int64(blockchain.ThresholdFailed)},
-		core.Fact{Name: "definedDeployments", Value: int64(chaincfg.DefinedDeployments)},
-	)
 	for name, p := range netParams() {
 		fs = append(fs,
 			core.Fact{Name: name + "_window", Value: int64(p.MinerConfirmationWindow)},
@@ -494,12 +486,12 @@ func genInstance(r *core.Rand, reuse *inst, allowExcluded bool) *inst {
 		case 16:
 			qs = append(qs, fmt.Sprintf("h%d@%d", id, nn))
 		case 15:
-			qs = append(qs, fmt.Sprintf("%s@%d", []string{"G", "G", "M"}[r.Intn(3)], nn))
+			qs = append(qs, fmt.Sprintf("%s%d@%d", []string{"G", "G", "M"}[r.Intn(3)], chaincfg.DeploymentCSV, nn))
 		case 14:
 			// the three entry points of one deployment state must agree on the same tip
 			qs = append(qs, fmt.Sprintf("s%d@%d", id, qn), fmt.Sprintf("d%d@%d", id, qn), fmt.Sprintf("a%d@%d", id, qn))
 		case 13:
-			qs = append(qs, fmt.Sprintf("g@%d", nn))
+			qs = append(qs, fmt.Sprintf("g%d@%d", chaincfg.DeploymentCSV, nn)) // the id of the CSV deployment is a parameter
 		case 12:
 			wb := r.Intn(29)
 			if r.Chance(2, 3) {
@@ -632,10 +624,9 @@ func (P) Generate(g *core.Gen) {
 		g.Case("warn-single-bit", true, lineOf(W, netT, deps, t, qs))
 	}
 	// small exported helpers
-	for n := 0; n < 8; n++ {
-		g.Case("unit-str", n < 5, fmt.Sprintf("C14 str %d", n))
+	for _, n := range []string{"defined", "started", "lockedin", "active", "failed", "255"} {
+		g.Case("unit-str", true, "C14 str "+n)
 	}
-	g.Case("unit-str", true, "C14 str 255")
 	for _, a := range []int64{0, 1, 2, 4294967294, 4294967295} {
 		g.Case("unit-eaa", true, fmt.Sprintf("C14 eaa %d", a))
 	}
